@@ -38,6 +38,9 @@ CHECKS = {
  'C11': dict(cat='exploration', tech='z3 regex equivalence for the pattern syntax; symbolic execution of TimePattern.match on symbolic hour/minute (z3 LIA) against a denotation formula',
    text='(1) z3 regex lemma: the implementation pattern regex accepts exactly the documented H:M shapes among whitespace-free strings up to length 8. (2) For well-formed patterns (all 15851 in thorough; every hour and minute field plus 1500 seeded patterns in quick) compile-time acceptance (literal and via macro) holds iff the pattern denotes some time, and match(h,m), executed on symbolic h and m, equals the positional denotation formula for all 1440 times at once. (3) Alternative lists (pairs/triples over a reduced alphabet) compiled and run on the real VM wait for exactly the OR of the listed patterns. (4) Patterns reused in loops, macros and variables keep their denotation.',
    note='Pattern text is concrete per work unit; hour/minute are solver variables. Set-valued state of TimePattern is wrapped in symbolic-membership views (falls back to the concrete 24x60 table if an implementation keeps no sets).', ref='4/C11'),
+ 'C13': dict(cat='exploration', tech=SYMX + ' (symbolic ages and list elements, choice variables for populations)',
+   text='Inductive step over the real LightSet: from the directory of an arbitrary population (all 125 over 3 names x 2 groups x 2 locations; thorough adds 4 names) one discover of an arbitrary new population / failed discover / refresh with expiry after a symbolic time advance; the public getters must equal a model (sorted duplicate-free names, each light in exactly its last reported group and location, sorted non-empty member lists, exactly the lights older than the limit expired). Independent explicit histories of 6/12 steps. SortedList first/last/next/prev/has/add/remove on 0..4 symbolic ordered elements with a symbolic probe, and next()-iteration under arbitrary interleaved removals.',
+   note='Every invariant-satisfying directory is reachable by one discover from empty, so the step covers histories of any length provided the invariant check is complete for the public getters. time.time in controller.light is stubbed.', ref='4/C13'),
 }
 PENDING = {
 }
